@@ -47,17 +47,21 @@ def main():
     report['demo_with_change_tail'] = out1[-400:]
     # 5. run the checks with the patch applied to /repo
     results = {}
+    inplace = '--inplace' in sys.argv   # run the checks against the worktree (VERIF_REPO) instead of patching /repo
+    report['checks_run_against'] = wt if inplace else '/repo with the patch applied'
     if report['applies_to_repo_head']:
-        sh(f'git -C /repo apply {patch}')
+        if not inplace:
+            sh(f'git -C /repo apply {patch}')
         try:
             allc = checks or [pid]
             for c in allc:
                 t = time.time()
-                rc, out = sh(f'python3 check/run.py {c}', cwd='/verif', timeout=3000)
+                rc, out = sh((f'VERIF_REPO={wt} ' if inplace else '') + f'python3 check/run.py {c}', cwd='/verif', timeout=3000)
                 lines = [l for l in out.splitlines() if l.startswith('VIOLATION') or l.startswith('KNOWN') or l.startswith('FRAMEWORK') or l.startswith('  ')]
                 results[c] = {'rc': rc, 'wall': round(time.time() - t, 1), 'lines': lines[:6]}
         finally:
-            sh('git -C /repo checkout -- .')
+            if not inplace:
+                sh('git -C /repo checkout -- .')
     report['checks'] = results
     restore_evidence(checks)
     print(json.dumps(report, indent=1))
